@@ -36,7 +36,14 @@ CASES = {
     "recursion": "def f(x: int) -> int:\n    return f(x)\n",
     "global mutation": "A = [1]\ndef f(x: int) -> int:\n    A.append(x)\n    return x\n",
     "variable index": "from typing import Tuple\ndef f(v: Tuple[int, int], i: int) -> int:\n    return v[i]\n",
-    "list slice": "def f(p: str) -> str:\n    return '/'.join(p.split('/')[:-1])\n",
+    "list slice": "def f(p: str) -> str:\n    return '/'.join(p.split('/')[1:])\n",
+    "list slice [:-2]": "def f(p: str) -> str:\n    return '/'.join(p.split('/')[:-2])\n",
+    "list slice with step": "def f(p: str) -> str:\n    return '/'.join(p.split('/')[:-1:1])\n",
+    "str index by variable": "def f(p: str, i: int) -> str:\n    return p[i]\n",
+    "str index -2": "def f(p: str) -> str:\n    return p[-2]\n",
+    "int of str": "def f(p: str) -> int:\n    return int(p)\n",
+    "int with base": "def f(b: bool) -> int:\n    return int(b, 10)\n",
+    "list[:-1], str[0], int(bool) ok (control)": "def f(p: str) -> str:\n    n = len(p) + int(p != '/')\n    return p[0] + '/'.join(p.split('/')[:-1]) + p[n:]\n",
     "is not None on str": "def f(x: str) -> bool:\n    return x is not None\n",
     "star args": "def f(*a) -> int:\n    return 1\n",
     "decorator": "import functools\n@functools.lru_cache\ndef f(x: int) -> int:\n    return x\n",
@@ -116,7 +123,7 @@ SPEC = {
     "opaque": {"mk": {"ret": "Hasher"}},
     "dicts": {"TBL": {"coq": "py_tbl", "key": "str", "value": "Hasher"}},
 }
-EXPECT_OK = {"read loop ok (control)", "walrus read loop ok (control)", "iter read loop ok (control)",
+EXPECT_OK = {"list[:-1], str[0], int(bool) ok (control)", "read loop ok (control)", "walrus read loop ok (control)", "iter read loop ok (control)",
              "for accumulate ok (control)", "try lookup ok (control)", "truthiness ok (control)", "nested raiser ok (control)", "rsplit ok (control)", "raise in assigning branch", "format ok (control)", "generator in join (control)"}
 
 
